@@ -51,6 +51,95 @@ def attr : Bytes := [97, 116, 116, 114]  -- "attr"
 def piecesRoot : Bytes := [112, 105, 101, 99, 101, 115, 32, 114, 111, 111, 116]  -- "pieces root"
 end K
 
+/-! ### reading a written metafile back (specification side) -/
+namespace Spec
+
+mutual
+/-- the files of a BEP 52 file tree with their path components: an entry whose key is the
+    empty string holds the properties of the file at that point; any other entry is a
+    directory level -/
+def treeLeaves (pre : List Bytes) : BVal → List (List Bytes × BVal)
+  | .dict kvs => treeLeavesD pre kvs
+  | _ => []
+def treeLeavesD (pre : List Bytes) : List (Bytes × BVal) → List (List Bytes × BVal)
+  | [] => []
+  | (k, v) :: r => (if k = [] then [(pre, v)] else treeLeaves (pre ++ [k]) v) ++ treeLeavesD pre r
+end
+
+mutual
+/-- the regular file at a relative path (given by its components) of a content tree -/
+def fileAt : Node → List Bytes → Option Bytes
+  | .file d, [] => some d
+  | .file _, _ :: _ => none
+  | .dir _, [] => none
+  | .dir es, n :: r => fileAtList es n r
+def fileAtList : List (Bytes × Node) → Bytes → List Bytes → Option Bytes
+  | [], _, _ => none
+  | (m, c) :: t, n, r => if m = n then fileAt c r else fileAtList t n r
+end
+
+/-- BEP 47: an entry of `files` is a padding file when it carries `attr` = "p" -/
+def isPadEntry (e : BVal) : Bool := if e.get? K.attr = some (.str [112]) then true else false
+
+/-- the `length` of an entry of `files` or of a file-tree leaf -/
+def entryLength (e : BVal) : Option Nat :=
+  match e.get? K.length with
+  | some (.int (.ofNat n)) => some n
+  | _ => none
+
+def strList : List BVal → Option (List Bytes)
+  | [] => some []
+  | .str s :: r => (strList r).map (s :: ·)
+  | _ :: _ => none
+
+/-- the `path` (list of components) of an entry of `files` -/
+def entryPath (e : BVal) : Option (List Bytes) :=
+  match e.get? K.path with
+  | some (.list l) => strList l
+  | _ => none
+
+/-- sum of the listed lengths -/
+def lengthsSum : List BVal → Option Nat
+  | [] => some 0
+  | e :: es =>
+    match entryLength e, lengthsSum es with
+    | some a, some b => some (a + b)
+    | _, _ => none
+
+/-- the bytes an entry of `files` stands for: zero bytes for a padding entry, otherwise the
+    contents of the file of the content tree at the listed path, which must have exactly the
+    listed length -/
+def entryBytes (t : Node) (e : BVal) : Option Bytes :=
+  if isPadEntry e then (entryLength e).map zeros
+  else
+    match (entryPath e).bind (fileAt t) with
+    | some d => if entryLength e = some d.length then some d else none
+    | none => none
+
+/-- the v1 byte stream a `files` list describes over a content tree (`none` when an entry
+    names no file of the tree or states a wrong length) -/
+def filesStream (t : Node) : List BVal → Option Bytes
+  | [] => some []
+  | e :: es =>
+    match entryBytes t e, filesStream t es with
+    | some a, some b => some (a ++ b)
+    | _, _ => none
+
+/-- the path string of the directory the top-level names of a written file tree live in, given
+    the path `pre`: for a directory payload `pre` is the content directory itself; for a single
+    file `pre` is its parent directory and the file is `pre/name` -/
+def treeBase (pre name : Bytes) : Node → Bytes
+  | .file _ => Listing.join pre name
+  | .dir _ => pre
+
+/-- a metafile value with the `creation date` entry set to `date` (everything else, including
+    the position of the entry, untouched) -/
+def setDate (date : Int) : BVal → BVal
+  | .dict kvs => .dict (kvs.map fun kv => if kv.1 = K.creationDate then (kv.1, .int date) else kv)
+  | v => v
+
+end Spec
+
 namespace Impl
 
 def sPad : Bytes := [46, 112, 97, 100]  -- ".pad"
@@ -210,6 +299,17 @@ def createAsm (hybrid : Bool) (o : CreateOpts) (H H1 : Bytes → Bytes) (B hs : 
     | .dir _ =>
       written (assembleHybrid o (.multi (.list (hybridEntries hf files))) tree pieces layers)
   else written (assembleAsmV2 o (singleLen t) tree layers)
+
+/-- "`(r, b)` is what one of the four v2-capable creators wrote for the content `t`":
+    `TorrentFileV2`, `TorrentAssembler` in v2 mode, `TorrentFileHybrid`, or `TorrentAssembler`
+    in hybrid mode — the last one with a v1 hash of 20-byte digests (it patches the last 20
+    bytes of the piece string of a single file). -/
+def WrittenV2Capable (o : CreateOpts) (H H1 : Bytes → Bytes) (B hs : Nat)
+    (enum : List (Bytes × FTree) → List (Bytes × FTree)) (t : Node) (r : BVal) (b : Bytes) : Prop :=
+  createV2Class o H B hs enum t = some (r, b) ∨
+  createAsm false o H H1 B hs enum t = some (r, b) ∨
+  createHybridClass o H H1 B hs enum t = some (r, b) ∨
+  ((∀ x, (H1 x).length = 20) ∧ createAsm true o H H1 B hs enum t = some (r, b))
 
 end Impl
 end TorrentVerif
